@@ -41,12 +41,39 @@ Proof.
   - apply andb_prop in H. destruct H. specialize (IHe1 H). specialize (IHe2 H0). lra.
   - apply pow2_ge_0.
 Qed.
+(* syntactic equality of expressions (sound, not complete: used only to recognise  sqrt s * sqrt s) *)
+Fixpoint expr_eqb (a b : expr) : bool :=
+  match a, b with
+  | Var i, Var j => Nat.eqb i j
+  | Cst x, Cst y => Z.eqb x y
+  | CstQ n d, CstQ n' d' => Z.eqb n n' && Z.eqb d d'
+  | Pi, Pi => true
+  | Add a1 a2, Add b1 b2 | Sub a1 a2, Sub b1 b2 | Mul a1 a2, Mul b1 b2 | Div a1 a2, Div b1 b2 | Mod a1 a2, Mod b1 b2 =>
+      expr_eqb a1 b1 && expr_eqb a2 b2
+  | Neg a1, Neg b1 | Sq a1, Sq b1 | Sin a1, Sin b1 | Cos a1, Cos b1 | Sqrt a1, Sqrt b1 => expr_eqb a1 b1
+  | _, _ => false
+  end.
+Lemma expr_eqb_eq a : forall b, expr_eqb a b = true -> a = b.
+Proof.
+  induction a; intros b H; destruct b; simpl in H; try discriminate;
+  repeat match goal with H : _ && _ = true |- _ => apply andb_prop in H; destruct H end;
+  repeat match goal with
+         | H : Nat.eqb _ _ = true |- _ => apply Nat.eqb_eq in H; subst
+         | H : Z.eqb _ _ = true |- _ => apply Z.eqb_eq in H; subst
+         end;
+  try reflexivity;
+  repeat match goal with IH : forall b, expr_eqb ?a b = true -> ?a = b, H : expr_eqb ?a _ = true |- _ => apply IH in H; subst end;
+  reflexivity.
+Qed.
 Fixpoint simp (e : expr) : expr :=
   match e with
   | Var _ | Cst _ | CstQ _ _ | Pi => e
   | Add a b => Add (simp a) (simp b)
   | Sub a b => Sub (simp a) (simp b)
-  | Mul a b => Mul (simp a) (simp b)
+  | Mul a b => match a, b with
+               | Sqrt s, Sqrt s' => if sumsq s && expr_eqb s s' then s else Mul (simp a) (simp b)   (* qnorm * qnorm *)
+               | _, _ => Mul (simp a) (simp b)
+               end
   | Div a b => Div (simp a) (simp b)
   | Mod a b => Mod (simp a) (simp b)
   | Neg a => Neg (simp a)
@@ -60,11 +87,18 @@ Fixpoint simp (e : expr) : expr :=
   end.
 Lemma simp_sound env e : evalR env (simp e) = evalR env e.
 Proof.
-  induction e; simpl; try congruence.
-  destruct e; simpl in *; try congruence.
-  destruct (sumsq e) eqn:E; simpl.
-  - pose proof (sumsq_nonneg env e E) as Hn. symmetry. rewrite Rmult_1_r. apply sqrt_sqrt; auto.
-  - congruence.
+  induction e; try (simpl; congruence).
+  - (* Mul *)
+    assert (G : evalR env (Mul (simp e1) (simp e2)) = evalR env (Mul e1 e2)) by (simpl; congruence).
+    destruct e1; try exact G. destruct e2; try exact G.
+    cbn [simp]. destruct (sumsq e1 && expr_eqb e1 e2) eqn:E; [|exact G].
+    apply andb_prop in E. destruct E as [E1 E2]. apply expr_eqb_eq in E2. subst e2.
+    pose proof (sumsq_nonneg env e1 E1) as Hn. simpl. symmetry. apply sqrt_sqrt; auto.
+  - (* Sq *)
+    simpl. destruct e; simpl in *; try congruence.
+    destruct (sumsq e) eqn:E; simpl.
+    + pose proof (sumsq_nonneg env e E) as Hn. symmetry. rewrite Rmult_1_r. apply sqrt_sqrt; auto.
+    + congruence.
 Qed.
 Lemma simp_sound_l env l : evl env (map simp l) = evl env l.
 Proof. unfold evl. rewrite map_map. apply map_ext. intros; apply simp_sound. Qed.
